@@ -7,32 +7,40 @@ from vlib.registry import COMMON_NOTE
 REGISTRATION = {
     "engine": "lean-stop",
     "technique": "Lean 4 proof over a byte-level model of stop.go + flushPending + the per-token loop; "
-                 "differential correspondence against the real processBatch driven by a scripted model",
+                 "differential correspondence against the real processBatch of BOTH runners (ollamarunner behind a scripted "
+                 "model, llamarunner on the real llama.cpp context behind a generated GGUF model)",
     "category": "proof",
     "text": "Kernel-checked theorems, for every list of generated pieces/EOS, every stop list and every prediction limit, "
-            "over a Lean model of FindStop (pinned and repaired variant)/ContainsStopSuffix/TruncateStop/IncompleteUnicode, "
-            "utf8.ValidString (byte automaton), flushPending, the per-token loop of processBatch, the buffered response "
-            "channel with a lagging reader, and calls in which a sequence is not sampled because of its batch-mates. "
-            "c14_streamed_text states the whole property for the tree as it is (repaired FindStop): chunks valid UTF-8, "
-            "output a prefix of the generated text cut on character boundaries, no stop inside, ends right before the "
-            "earliest stop with reason stop, otherwise at EOS/limit with everything streamed, and the reader receives "
-            "exactly these chunks whatever its schedule; consumer_schedule_independent, batch_mates_independent and "
-            "disconnect_prefix say that the stream is a function of (pieces, stops, limit) only. For the pinned FindStop the "
-            "multi-stop clause is false (finding F7, fixed in /repo; Lean witness) and proved under a guard. The model is "
-            "compared exactly with the real functions of runner/common, with the real ollamarunner loop (NewSequence, "
-            "LoadCacheSlot, processBatch, removeSequence, flushPending; scripted model + greedy sampler behind the Server) run "
-            "with a prompt reader, with lagging/disconnecting readers (testing/synctest) and with 2-3 sequences per Server, "
-            "with the real completion HTTP handler one level up (request JSON as the llm client sends it; the streamed JSON lines "
-            "compared exactly: content chunks and the final object's done_reason / eval_count / prompt_eval_count; theorems "
-            "client_receives, eos_on_last_permitted_token), and with the real llamarunner.flushPending; the llamarunner loop and handler (needs llama.cpp and a model file) is tied by a "
-            "go/ast skeleton of its output statements regenerated on every run.",
+            "over a Lean model of FindStop (first-listed and earliest variant)/ContainsStopSuffix/TruncateStop/IncompleteUnicode, "
+            "utf8.ValidString (byte automaton), flushPending, the per-token loop of processBatch, the cache-length arithmetic "
+            "next to TruncateStop, the buffered response channel with a lagging reader, and calls in which a sequence is not "
+            "sampled because of its batch-mates. c14_script / c14_streamed_text state the whole property (hypothesis on the "
+            "script: its pieces spell a prefix of valid UTF-8): chunks valid UTF-8, output a prefix of the generated text cut "
+            "on character boundaries, no stop inside, ends right before the earliest stop with reason stop, otherwise at "
+            "EOS/limit with everything streamed, and the reader receives exactly these chunks whatever its schedule; "
+            "c14_tree is that statement for the FindStop variant the tree was MEASURED to have on this run (the real "
+            "FindStop/TruncateStop executed on distinguishing inputs -> Generated/C14_Variant.lean -> tree_findstop_repaired by "
+            "decide); consumer_schedule_independent, batch_mates_independent and disconnect_prefix say that the stream is a "
+            "function of (pieces, stops, limit) only; cacheKeep_spec: at a stop string the cache keeps exactly the inputs of the "
+            "tokens streamed in full and the reslice is in range. For the first-listed FindStop the multi-stop clause is false "
+            "(finding F7, fixed in /repo; Lean witness) and proved under a guard. The model is compared exactly with the real "
+            "functions of runner/common, with the real ollamarunner loop (NewSequence, LoadCacheSlot, processBatch, "
+            "removeSequence, flushPending; scripted model + greedy sampler behind the Server) run with a prompt reader, with "
+            "lagging/disconnecting readers (testing/synctest) and with 2-3 sequences per Server, with the real completion HTTP "
+            "handler one level up (request JSON as the llm client sends it; streamed JSON lines compared exactly), and with the "
+            "real llamarunner loop (loadModel, NewSequence, LoadCacheSlot, processBatch, removeSequence, flushPending on the real "
+            "llama.cpp llama_decode / sampler / token_to_piece / is_eog; only the weights and the vocabulary of a generated tiny "
+            "GGUF file are scripted); the go/ast skeleton of the output statements of both runners and of llamarunner's "
+            "completion handler is regenerated on every run.",
     "design_ref": "DESIGN.md §5 C14, §6 F7/F20",
     "note": COMMON_NOTE + "Modelled, not verified: what the decode loop does after the client disconnected (the select "
             "in flushPending is then nondeterministic; disconnect_prefix covers what the client holds, L2 monitors the rest), "
             "stop strings reach the runner through JSON and are therefore valid UTF-8 (the stop clauses are stated for valid "
-            "non-empty stops; arbitrary-byte and empty stops are still covered by L1 and by prefix_valid/chunks_valid), the "
-            "llamarunner per-token loop is compared structurally (same statement skeleton as the executed ollamarunner "
-            "loop), not executed; the cache-length arithmetic next to TruncateStop belongs to C07.",
+            "non-empty stops; arbitrary-byte and empty stops are still covered by L1 and by prefix_valid/chunks_valid), "
+            "llamarunner's completion HTTP handler is compared structurally (statement skeleton), not executed; its per-token "
+            "loop is executed with greedy sampling only and with pieces free of NUL bytes. Two clauses of the statement are "
+            "refuted as written and proved in the weaker true form: 'prefix of the generated text' holds for valid-UTF-8 "
+            "generations only (F20a), 'the reason says which of the three' is a two-valued map (F20b).",
 }
 
 PROP_MODULES = ["OllamaVerif.Properties.C14"]
@@ -291,7 +299,11 @@ def run(ctx):
         "only what the client already holds is (disconnect_prefix, L2 disconnect-*)",
         "stop strings are valid UTF-8 when they reach the runner (they arrive through encoding/json); the stop clauses "
         "of the theorems and the L2 stop monitors are stated for valid, non-empty stops",
-        "llamarunner's per-token loop is tied by the regenerated statement skeleton, not executed (needs llama.cpp + model file)",
+        "llamarunner's loop is executed with a generated GGUF model (one layer, one-hot embeddings, greedy sampling): what "
+        "llama.cpp computes for real weights / other samplers is outside; its completion handler is tied by the regenerated "
+        "statement skeleton only",
+        "Chan.send's back-pressure semantics (a full buffered channel blocks the sender until one receive) is the Go memory "
+        "model's, exercised under testing/synctest, not proved",
     ]
     if ctx.thorough:
         ctx.leanchecker(MODULES)
@@ -307,7 +319,10 @@ def run(ctx):
              "disconnect at some token (500 quick / 20 000 thorough); 2-3 sequences per Server x batch sizes 1,2,3,4,512 x join "
              "times 0..8 x prompt lengths 1..5 (600 / 30 000 cases); completion handler: request JSON x scripts whose terminating "
              "event (EOS, one-token stop, stop split over 2-3 tokens) is token j with limit j-1, j, j+1, none, far, + the wide loop "
-             "generator, + cancelled requests (1 500 / 60 000 cases); distinct = distinct oracle command lines",
+             "generator, + cancelled requests (1 500 / 60 000 cases); llamarunner loop: corpus (byte-fallback characters, chat-style stop "
+             "split over tokens, limit inside a character) + every split of short texts x 9 stop sets x 3 limits + seeded random "
+             "scripts (1 500 / 40 000) packed ~20 per generated GGUF model, with limit-check-only calls between tokens; cache "
+             "length at removal compared on both runners; distinct = distinct oracle command lines",
         explanation="Lean theorems about the model of stop.go/flushPending/processBatch's output logic; the model is tied "
                     "to the code by exact comparison with the real functions and the real processBatch loop (L1), by the "
                     "property predicates evaluated on the real loop's output (L2) and by the regenerated go/ast skeleton "
